@@ -11,7 +11,7 @@ def E():
     return core.lib()
 
 
-def fresh_lib_curve(mc, register=False):
+def fresh_lib_curve(mc, register=False, legacy_generator=False):
     """A brand-new library Curve (own CurveFp, own generator with an empty
     table) for model curve `mc` - named or toy.  Never the process-global
     objects, so runs are independent of each other."""
@@ -24,7 +24,12 @@ def fresh_lib_curve(mc, register=False):
         # DER/PEM loaders return: use the library's representation of a
         a = int(global_lib_curve(mc).curve.a())
     cf = le.CurveFp(mc.p, a, mc.b, mc.h)
-    g = le.PointJacobi(cf, mc.gx, mc.gy, 1, mc.n, generator=True)
+    if legacy_generator:
+        # a user-defined curve whose base point is a classic affine Point
+        # (the key and signature code has explicit branches for that)
+        g = le.Point(cf, mc.gx, mc.gy, mc.n)
+    else:
+        g = le.PointJacobi(cf, mc.gx, mc.gy, 1, mc.n, generator=True)
     c = lc.Curve(mc.name, cf, g, tuple(mc.oid), None)
     return c
 
@@ -234,11 +239,12 @@ def leading_zero_scalars(name):
     return _lz.get(name, {"x0": [], "y0": []})
 
 
-def run_curve(mc):
+def run_curve(mc, legacy_generator=False):
     """(library Curve, is_toy) for a run: toy curves are built fresh, named
     curves are the library's own objects (the loaders return those)."""
     toy = mc.p < (1 << 24)
-    return (fresh_lib_curve(mc) if toy else global_lib_curve(mc)), toy
+    return (fresh_lib_curve(mc, legacy_generator=legacy_generator) if toy
+            else global_lib_curve(mc)), toy
 
 
 _tables_checked = []
